@@ -59,6 +59,11 @@ def exc(q) -> AV:
     return AV("exc", q, truth=True, none=False)
 
 
+def ext_top_except(*classes) -> AV:
+    """Some external exception that is none of `classes` (their outcomes are modelled separately)."""
+    return AV("exc", "<external-exception>", tags=frozenset("not:" + c for c in classes))
+
+
 UNK = AV()
 EXT_TOP = AV("exc", "<external-exception>")  # some Exception subclass not defined in urllib3
 BASE_TOP = AV("exc", "<interrupt>")  # KeyboardInterrupt / GeneratorExit-like
@@ -170,6 +175,7 @@ class Interp:
     relevant = None  # None = track everything
     frame_has_self = True
     record_decisions = False
+    track_faults = False  # keep the first fault site in the state identity (stable path signatures)
 
     def __init__(self, model: Model, rule, self_cls: Optional[str], module: str, inline=frozenset(), frame="f0", depth=0,
                  budget: Budget | None = None, max_depth=6):
@@ -190,11 +196,17 @@ class Interp:
                      budget=self.budget, max_depth=self.max_depth)
         sub.relevant = self.relevant
         sub.record_decisions = self.record_decisions
+        sub.track_faults = self.track_faults
         sub.frame_has_self = is_method
         sub.func_qual = fi.qual
         return sub
 
     # ------------------------------------------------------------- helpers
+    def mark_fault(self, s, label):
+        if self.track_faults and "fault0" not in s.ts:
+            s.ts["fault0"] = label
+        return s
+
     def var(self, name):
         return f"{self.frame}:{name}"
 
@@ -222,17 +234,21 @@ class Interp:
     def match(self, ex: AV, classes):
         """-> list of ('caught', refined_exc) and maybe ('pass', exc)"""
         res = []
-        if ex == RESEND:
+        if ex.val == RESEND.val:
             return [("pass", ex)]
-        if ex == BASE_TOP:
+        if ex.val == BASE_TOP.val:
             if any(c == "builtins.BaseException" for c in classes):
                 return [("caught", ex)]
             return [("pass", ex)]
-        if ex == EXT_TOP:
+        if ex.val == EXT_TOP.val:
+            # tags "not:<class>" exclude classes whose outcome the rule models separately
+            excl = [t[4:] for t in ex.tags if t.startswith("not:")]
             for c in classes:
                 if c in ("builtins.BaseException", "builtins.Exception"):
                     return [("caught", ex)]
                 if c != "?" and not self.is_urllib3(c):
+                    if any(self.m.issub(c, x) for x in excl):
+                        continue
                     res.append(("caught", AV("exc", c, truth=True, none=False)))
             res.append(("pass", ex))
             return res
@@ -328,7 +344,7 @@ class Interp:
                     if not any(self.m.issub(c, q) for c in classes):
                         out.append((s, False))
                         continue
-                memo = ("isinst", av.sym, tuple(classes)) if av.sym else None
+                memo = ("isinst", av.sym, tuple(classes)) if (av.sym and self._memo_on()) else None
                 if memo and memo in s.ts:
                     out.append((s, s.ts[memo]))
                     continue
@@ -366,7 +382,7 @@ class Interp:
                             known = k
                     elif isinstance(node.ops[0], ast.IsNot):
                         known = not known
-                    if known is None and a.sym and b.kind == "const":
+                    if known is None and a.sym and b.kind == "const" and self._memo_on():
                         memo = ("cmp", a.sym, "is", repr(b.val))
                         if memo in s.ts:
                             known = s.ts[memo] if isinstance(node.ops[0], ast.Is) else not s.ts[memo]
@@ -456,8 +472,11 @@ class Interp:
             return ("cmp", a.sym, name, b.sym)
         return None
 
+    def _memo_on(self):
+        return self.record_decisions or self.relevant is None
+
     def _cmp_memo(self, s, op, a, b, t):
-        memo = self._memo_key(op, a, b)
+        memo = self._memo_key(op, a, b) if self._memo_on() else None
         if memo:
             s.ts[memo] = t if isinstance(op, (ast.Eq, ast.In, ast.Lt, ast.LtE, ast.Gt, ast.GtE)) else not t
             # x == <falsy/truthy const> decides truthiness of x
@@ -466,19 +485,22 @@ class Interp:
 
     def refine(self, st: State, node, av, f):
         """Apply refinement f to the value read by `node` (a Name / Attribute / anything with a symbol)."""
+        if isinstance(node, ast.Name) and not self.is_rel(node.id):
+            return st
+        if isinstance(node, ast.Attribute) and isinstance(node.value, ast.Name) and not self.is_rel(f"{node.value.id}.{node.attr}"):
+            return st
         if av is not None and av.sym:
             new = f(st.view(av))
             st.facts[av.sym] = (new.truth, new.none)
             return st
         if isinstance(node, ast.Name):
-            if self.is_rel(node.id):
-                k = self.var(node.id)
-                if k in st.env:
-                    st.env[k] = f(st.env[k])
+            k = self.var(node.id)
+            if k in st.env:
+                st.env[k] = f(st.env[k])
         elif isinstance(node, ast.Attribute) and isinstance(node.value, ast.Name):
             base = st.env.get(self.var(node.value.id))
             key = self.heap_key(base, node.value.id, node.attr)
-            if key and self.is_rel(f"{node.value.id}.{node.attr}"):
+            if key:
                 st.heap[key] = f(st.heap.get(key, UNK))
         return st
 
@@ -520,7 +542,7 @@ class Interp:
                         key = (base.val, node.attr)
                     if key is not None and key in s.heap:
                         av = s.heap[key]
-                    elif key is not None:
+                    elif key is not None and (self.relevant is None or (isinstance(node.value, ast.Name) and self.is_rel(f"{node.value.id}.{node.attr}"))):
                         # stable symbol per (object, field) so repeated reads correlate
                         av = AV("unk", sym=f"field:{key[0]}.{key[1]}")
                     else:
@@ -710,6 +732,7 @@ class Interp:
             for ex in self.raise_set(q, node, recv):
                 s_e = st.copy()
                 s_e.log(node, f"call {text} -> raises {ex.val}")
+                self.mark_fault(s_e, f"call {text}")
                 outs.append(Out("raise", s_e, ex))
         return outs
 
@@ -934,6 +957,7 @@ class Interp:
                         av = self.rule.raise_value(self, s, stmt, av) or EXT_TOP
                 s = s.copy()
                 s.log(stmt, f"raise {av.val}")
+                self.mark_fault(s, f"raise {str(av.val).rsplit('.', 1)[-1]}")
                 outs.append(Out("raise", s, av))
             return outs
         if isinstance(stmt, ast.If):
